@@ -103,12 +103,17 @@ func encode(format string, t *tensor.Dense) (b []byte, st string) {
 }
 
 func decode(format string, dt tensor.Dtype, b []byte) (t *tensor.Dense, st string) {
+	return decodeInto(format, dt, b, new(tensor.Dense))
+}
+
+// decodeInto decodes into an existing *Dense (which may hold an earlier decode's state).
+func decodeInto(format string, dt tensor.Dtype, b []byte, into *tensor.Dense) (t *tensor.Dense, st string) {
 	defer func() {
 		if e := recover(); e != nil {
 			st = "panic"
 		}
 	}()
-	t = new(tensor.Dense)
+	t = into
 	var err error
 	switch format {
 	case "gob":
@@ -157,7 +162,32 @@ func init() {
 		if dst != "ok" {
 			return fmt.Sprintf("E=ok D=%s dt=- D[-] %s", dst, serObs("S", src))
 		}
-		return fmt.Sprintf("E=ok D=ok dt=%s %s %s", dtName(d.Dtype()), serObs("D", d), serObs("S", src))
+		first := fmt.Sprintf("E=ok D=ok dt=%s %s %s", dtName(d.Dtype()), serObs("D", d), serObs("S", src))
+		// the bytes are the caller's: a later encode must not change them, and decoding into a
+		// *Dense that already holds another (masked) tensor must give the same result as decoding
+		// into a fresh one
+		keep := append([]byte{}, b...)
+		other := tensor.New(tensor.WithShape(2, 3), tensor.WithBacking(backing(dt, []int{9, 8, 7, 6, 5, 4})))
+		if format != "npy" && format != "csv" { // (these two write masked elements as fill values)
+			other.SetMask([]bool{false, true, false, false, false, true})
+		}
+		if ob, ost := encode(format, other); ost == "ok" {
+			if !bytes.Equal(keep, b) {
+				return first + " !earlier-bytes-changed-by-a-later-encode"
+			}
+			used := new(tensor.Dense)
+			if _, ust := decodeInto(format, other.Dtype(), ob, used); ust == "ok" {
+				if d2, st2 := decodeInto(format, src.Dtype(), b, used); st2 == "ok" {
+					second := fmt.Sprintf("E=ok D=ok dt=%s %s %s", dtName(d2.Dtype()), serObs("D", d2), serObs("S", src))
+					if second != first {
+						return first + " !decode-into-used-tensor-differs:" + serObs("D", d2)
+					}
+				} else {
+					return first + " !decode-into-used-tensor:" + st2
+				}
+			}
+		}
+		return first
 	}
 	// serx <ptr|uptr> <fmt> <shape> : the two element types outside the token scheme (unsafe.Pointer,
 	// uintptr).  Observation: E= D= dt=<decoded type> same=<1 iff type, shape and elements are equal>
